@@ -59,11 +59,11 @@ LEVEL = {
 }
 NOTE = {
  'C13': 'Trusted: libm, the harness reference evaluator (sim/refeval.h), ASan/UBSan. The value oracle is applied only where all subexpressions are finite and the result is stable under 1e-9 perturbations (tolerance 1e-6); the fresh-evaluator oracle is exact. State after a failed init is not judged. Known finding: CSE changes atan2(e, e) results (root cause in atan2 autoevaluation, pinned by the test suite). LLVM evaluators not covered.',
- 'C18': 'Trusted: ASan/UBSan. Inputs that could legitimately take unbounded time (towers of powers, special functions of huge arguments) are filtered by a conservative syntactic predicate and not run. Only mutations of grammar-generated strings up to 2500 bytes; arbitrary byte strings (fuzzing) not claimed.',
+ 'C18': 'Trusted: ASan/UBSan. Inputs that could legitimately take very long or exhaust memory (towers of powers; special functions of literals above 4 digits or with exponents, nested/repeated special functions such as gamma(gamma(18)); zeta/dirichlet_eta/polygamma above 99) are filtered by a conservative syntactic predicate and not run. Hang = still in the same step after 4 watchdog periods (6 min) alone in a fresh process; slower-than-watchdog runs that finish are notes. Known findings (known_findings.jsonl): lowergamma(n, x) / uppergamma(n, x) recurse n deep - stack overflow from a 20-byte input; that input family (either name with a literal of >= 4 digits inside its argument list) is replayed from known/C18 and left out of random exploration. Only mutations of grammar-generated strings up to 2500 bytes; arbitrary byte strings (fuzzing) not claimed.',
  'C19': 'Trusted: eq/str/hash as equality oracles, ASan. Field-completeness of every save/load pair is sampled, not enumerated; NaN-valued doubles skip the eq oracle; generator avoids inputs on which constructors (not serialization) misbehave (listed in DESIGN.md).',
  'C20': 'Trusted: ASan/UBSan, the memory budget (64 MB per request / 512 MB live -> std::bad_alloc). Only mutations of valid dumps are explored; post-load use is str, hash, eq, __cmp__, eval_double as the property lists. DenseMatrix::loads is not covered.',
  'C23': 'Covers only the factorisation clause (random choices); the arithmetic clauses are pure and not decided here. p <= 199, degree <= 12 (p = 2: <= 8). Constant rand() streams are not injected.',
- 'C25': 'Trusted: DenseMatrix operations as reference, eq/expand for value comparison, ASan/UBSan. Matrices up to 8x8, entries numbers and monomials. csr_matmat_pass2 results compared by value only (it neither sorts nor shrinks, as its SciPy original).',
+ 'C25': 'Trusted: DenseMatrix operations as reference, eq/expand for value comparison, ASan/UBSan. Matrices up to 8x8, entries numbers and monomials; a pool member whose entries grow beyond 40 expression nodes is checked and then replaced by small values on the same sparsity pattern (bounded run time). csr_matmat_pass2 results compared by value only (it neither sorts nor shrinks, as its SciPy original).',
  'C32': 'Pure functions of the property (gcd, lcm, gcd_ext, mod/quotient families, mod_inverse, crt, fibonacci, lucas, binomial, factorial, divides, bernoulli, harmonic, legendre/jacobi/kronecker, quadratic_residues, polygonal numbers, perfect powers, nextprime, probab_prime_p) are NOT covered. Arguments bounded (n <= 1e6 plus 40-bit semiprimes, moduli <= 4000).',
  'C33': 'Trusted: the harness sieve of Eratosthenes as reference, ASan/UBSan reporting. Bounds: sieve sizes {1,2,3,4,8,16,32,64} KB, limits <= 3e6, <=5 live iterators. A bounded iterator is allowed to return cached primes beyond its limit (callers test p <= limit).',
  'C41': 'Trusted: ThreadSanitizer (bounded per-location history), the uninstrumented scheduler. Sequentially consistent interleavings at atomic-access granularity only (no hardware weak-memory effects); WITH_SYMENGINE_RCP=yes; operations outside the property list (sieve, series) not run concurrently.',
